@@ -124,6 +124,12 @@ func c10Gen(tape *simrt.Tape, tier string) *c10Case {
 			sc.Fault = cfCloseStdout
 			sc.FaultAfter = 1 + tape.Choose(n, "after")
 		}
+		if sc.Fault == cfOversize || sc.Fault == cfGarbage || sc.Fault == cfUnknown || sc.Fault == cfEmptyName {
+			sc.SilentAfterFault = tape.Bool(1, 2, "silent-after-fault")
+			if sc.SilentAfterFault && tape.Bool(1, 2, "silent-ignores-eof") {
+				sc.IgnoreEOF = true // ... and does not leave when its stdin is closed either
+			}
+		}
 		if sc.Fault == cfNone && tape.Bool(1, 3, "nonzero-at-end") {
 			sc.ExitNonZero = true
 		}
